@@ -97,6 +97,7 @@ def check_chain(ctx, cls, start, end, month=0):
         ctx.check("C19:chain-unique-symbols", len(set(syms)) == len(syms), cls=cls.__name__, start=start, end=end)
     # the events do not depend on the process-wide clock (left wherever an earlier episode put it)
     AbstractContract.now = ctx.rng.choice([datetime.min, datetime(2150, 1, 1), pydt(ex[len(ex) // 2])])
+    ch.make_events()                      # an earlier call (e.g. by another environment built on this chain)
     evs = ch.make_events()
     AbstractContract.now = datetime.min
     ctx.check("C19:chain-events", len(evs) == len(cs) and all(
